@@ -340,8 +340,8 @@ class ProductSeq(SymSeq):
 
     def get(self, interp, k):
         key = tz(k).get_id() if not isinstance(k, int) else ("c", k)
-        if key in self._cache:
-            return self._cache[key]
+        if key in self._cache and (isinstance(k, int) or self._cache[key][0].eq(tz(k))):
+            return self._cache[key][1]
         ctx = interp.ctx
         out = []
         for s in self.seqs:
@@ -353,7 +353,7 @@ class ProductSeq(SymSeq):
             ctx.assume(idx < ln)
             out.append(s.get(interp, idx))
         v = tuple(out)
-        self._cache[key] = v
+        self._cache[key] = (None if isinstance(k, int) else tz(k), v)
         return v
 
 
@@ -403,14 +403,21 @@ def _nbkey(n, c):
 
 def _NB_CACHE_get(n, c):
     try:
-        return sym.cur().ghost.setdefault("nbcache", {}).get(_nbkey(n, c))
+        hit = sym.cur().ghost.setdefault("nbcache", {}).get(_nbkey(n, c))
     except Unsupported:
         return None
+    if hit is None:
+        return None
+    n0, c0, nb = hit
+    if tz(n0).eq(tz(n)) and tz(c0).eq(tz(c)):
+        return nb
+    return None
 
 
 def _NB_CACHE_put(n, c, nb):
     try:
-        sym.cur().ghost.setdefault("nbcache", {})[_nbkey(n, c)] = nb
+        # the terms are stored with the entry: they stay alive, so their ids cannot be reused by other terms
+        sym.cur().ghost.setdefault("nbcache", {})[_nbkey(n, c)] = (n, c, nb)
     except Unsupported:
         pass
 
